@@ -415,7 +415,19 @@ fn count_matches(z: &[u8]) -> usize {
     while i < z.len() { if z[i] == 1 { n += 1; i += 9; } else { i += 2; } }
     n
 }
-fn lz_coq(_cx: &mut Cx, _which: u64, _min: usize, _max: usize, _data: &[u8], _z: &[u8], _cj: &Value) {}
+fn lz_coq(cx: &mut Cx, which: u64, min: usize, max: usize, data: &[u8], z: &[u8], cj: &Value) {
+    // op 120: a = the implementation's token stream, expect = 1 :: payload   (model decoder on the real stream)
+    // op 121: a = [min, max], b = payload, expect = 1 :: token stream        (model of DictionaryCompressor::compress)
+    if data.len() > 700 { return; }
+    let zz: Vec<u128> = z.iter().map(|&x| x as u128).collect();
+    let d: Vec<u128> = data.iter().map(|&x| x as u128).collect();
+    let mut e = vec![1u128]; e.extend(d.iter().cloned());
+    coq_push(cx, 120, &zz, &[], &e, cj);
+    if which == 0 {
+        let mut e2 = vec![1u128]; e2.extend(zz.iter().cloned());
+        coq_push(cx, 121, &[min as u128, max as u128], &d, &e2, cj);
+    }
+}
 
 // ---------------------------------------------------------------------------------------------
 // entropy::parallel entry points that go through rANS / FSE
@@ -644,7 +656,7 @@ pub fn run_cells(sum: &mut Summary, shards: &mut CoqShards, rng: &mut Rng, args:
                 let rel = k % RELS;
                 let t = training(r, &d, rel);
                 let (mn, mx) = lz_cfgs[(k / 3) % lz_cfgs.len()];
-                lz_case(&mut cx, which, mn, mx, 32768, &d, &t, &format!("{}_{}", kind_name(kind), rel_name(rel)), len <= 300 && which == 0);
+                lz_case(&mut cx, which, mn, mx, 32768, &d, &t, &format!("{}_{}", kind_name(kind), rel_name(rel)), len <= 300);
             }
         }
     }
@@ -656,7 +668,7 @@ pub fn run_cells(sum: &mut Summary, shards: &mut CoqShards, rng: &mut Rng, args:
                 // a random block of length l, a separator, and the block again
                 let blk = r.bytes(l);
                 let mut d = blk.clone(); d.extend_from_slice(b"|"); d.extend_from_slice(&blk); d.push(b'#');
-                lz_case(&mut cx, which, mn, mx, 32768, &d, &d.clone(), "repeat_block", which == 0);
+                lz_case(&mut cx, which, mn, mx, 32768, &d, &d.clone(), "repeat_block", true);
                 // a run: distance 1, length l (overlapping copy)
                 let mut d2 = vec![b'q']; d2.extend(std::iter::repeat(b'z').take(l + 1)); d2.push(b'!');
                 lz_case(&mut cx, which, mn, mx, 32768, &d2, &d2.clone(), "run_distance1", which == 0);
